@@ -107,6 +107,14 @@ class _AbstractUsedNamesFilter(AbstractFilter):
                 # meantime (its garbage collection starts once a lot of
                 # modules are cached).
                 self._parso_cache_node = None
+            else:
+                if self._parso_cache_node.node is not module_context.tree_node:
+                    # parso caches a different tree for this path (e.g. the
+                    # one of the file on disk while a Script with
+                    # settings.fast_parser = False works on its own tree).
+                    # The caches that hang on that entry hold names of the
+                    # other tree.
+                    self._parso_cache_node = None
         self._used_names = module_context.tree_node.get_used_names()
         self.parent_context = parent_context
 
